@@ -27,6 +27,8 @@ type FileGenOpts struct {
 	Phased bool
 	// PhasedLong: 4500-9000 messages instead of 600-1100.
 	PhasedLong bool
+	// PhasedMin/PhasedSpan, if set, give the slice length PhasedMin + [0, PhasedSpan) instead.
+	PhasedMin, PhasedSpan int
 	// OutOfDomain: also produce strings longer than the field and arrays longer than the profile length.
 	OutOfDomain bool
 	// MaxFieldsSet bounds the number of fields set per message (0: no bound). Messages whose
@@ -270,9 +272,27 @@ func GenFile(rng *Rand, o FileGenOpts) *fit.File {
 			if o.PhasedLong {
 				n = 4500 + rng.Intn(4500)
 			}
+			if o.PhasedMin > 0 {
+				n = o.PhasedMin + rng.Intn(o.PhasedSpan+1)
+			}
 			fields := prof.ByMesg[s.Global]
 			var phase []*ref.PField
 			left := 0
+			var headOnly, tailOnly *ref.PField
+			tailLen := 1 + rng.Intn(3)
+			pick := func() *ref.PField {
+				pf := fields[rng.Intn(len(fields))]
+				if pf.Array && ref.BaseTypes[pf.Base].Code == 7 {
+					return nil
+				}
+				return pf
+			}
+			if rng.Chance(1, 2) {
+				headOnly = pick()
+			}
+			if rng.Chance(2, 3) {
+				tailOnly = pick()
+			}
 			for k := 0; k < n; k++ {
 				if left == 0 {
 					left = 250 + rng.Intn(60)
@@ -287,6 +307,14 @@ func GenFile(rng *Rand, o FileGenOpts) *fit.File {
 				m := fit.VerifNewMesg(s.Global)
 				for _, pf := range phase {
 					SetField(rng, m.Elem(), pf, &o)
+				}
+				// a field that only the first message, or only the last one to three messages, set
+				// (a value known at the start / a summary written at the end)
+				if k == 0 && headOnly != nil {
+					SetField(rng, m.Elem(), headOnly, &o)
+				}
+				if k >= n-tailLen && tailOnly != nil {
+					SetField(rng, m.Elem(), tailOnly, &o)
 				}
 				fv.Set(reflect.Append(fv, m))
 			}
